@@ -126,7 +126,7 @@ def build_for(ctx, mod):
 
 BASE_TRUST = [
     "Coq 8.16.1 kernel (coqc full .vo build, no -vos); vm_compute used for closed boolean obligations; no native_compute",
-    "tools/py2v (Python-ast translator, fail-closed) reports /repo/src faithfully as Coq data (Gen/*.v); its pre-pass tools/py2v/normalize.py rewrites three spelling variants into the shapes of the pinned source before the generators read it (one-line def -> lambda, private module constant of literals -> the literal at its uses, private helper method called with its own parameter names as a whole statement -> its body in place), each rule an equivalence of Python programs whose side conditions are checked syntactically, skipped when one fails",
+    "tools/py2v (Python-ast translator, fail-closed) reports /repo/src faithfully as Coq data (Gen/*.v); its pre-pass tools/py2v/normalize.py rewrites a fixed list of spelling variants into the shapes of the pinned source before the generators read it (rules R2-R10 of its docstring: one-line def -> lambda, private module constant of literals -> the literal at its uses, private helper method called with its own parameter names as a whole statement -> its body in place, str.format -> f-string, nested with -> multi-item with, final return None dropped, try/except inside try/finally merged, from-import of a module the source imports whole -> attribute access, hoisted constant subscript written back), each rule an equivalence of Python programs whose side conditions are checked syntactically, skipped when one fails",
     "extraction plugin + exactly the directives ExtrOcamlBasic declares (Extract Inductive bool, option, unit, list, prod, sumbool => bool, sumor => option; Extract Inlined Constant andb => (&&), orb => (||)); no Extract Constant / Extract Inductive of our own (Z, N, positive, Q, nat, string stay extracted datatypes); OCaml 4.13.1; harness/driver_body.ml glue (int<->Z, s-expression I/O); cross-checked against Eval vm_compute on a sample each run",
     "harness (Python) drives the real aioftp from /repo/src and compares faithfully",
 ]
